@@ -2,6 +2,8 @@
 import glob, json, os
 V = os.path.dirname(os.path.dirname(os.path.abspath(__file__)))
 HIST = {
+    "C20b-m1": "missed at first (the bounded solved mazes stored BFS shortest paths, which the solver reproduces); bounded C20 now stores randomised simple paths on cyclic mazes - the plot must draw the stored solution",
+    "C07b-m2": "the triggering mazes (last row or last column without any connection) are outside C07's own quantifier (`every row and column index occurs in some connection`), so C07's check says nothing; the change is in from_adj_list, whose clause belongs to C13, and C13 reports it",
     "C11b-m1": "the clause `saved-where` (the file is written under the very name the request is looked up by) was added to the from_config contract when this change was delivered; the bounded fault experiments report it independently (no cache file under the requested name after the request)",
     "C03b-m2": "the same change leaves C12's prover undecided (a list where a set was: outside the subset) and was missed by C12's bounded check at first (cells compared as sets); bounded C12 now rejects a visited_cells list that names a cell twice; C03 and C13 reported it from the start",
     "C16b-m1": "undecided for the prover at first (the collection's member type had no configuration field: the changed body left the subset), reported by the bounded stand-in; the member type now carries its own configuration and the obligation C16.lengths fails",
